@@ -33,8 +33,15 @@ GENS = [  # (rotation index, scale, translation)
     (0, 0.5, np.zeros(3)),
 ]
 assert np.array_equal(ROT24[0], np.eye(3))
+FAR = np.array([4620.37, 54280.91, 310.55])
 MODES = ("rigid", "similarity", "scale_only", "origin")
 STORAGE = ("se3", "quat", "se3+read", "quat+read")
+
+
+def far_gen(g):
+    while not 0.5 <= GENS[g][1] <= 2.0:
+        g = (g + 1) % len(GENS)
+    return g
 
 
 def shape(seq):
@@ -59,6 +66,11 @@ def make_pair(case):
         seq2 = [(s + 1 + i) % len(STEPS) for i, s in enumerate(case["seq"])]
         R2, p2 = shape(seq2)
         rR, rp = [G @ R for R in R2], [sc * (G @ p) + tr for p in p2]
+    if case.get("far"):
+        # both trajectories far from the origin compared with their extent
+        # (map coordinates): the same similarity up to its translation
+        ps = [p + FAR for p in ps]
+        rp = [p + FAR for p in rp]
     return (Rs, ps), (rR, rp)
 
 
@@ -218,14 +230,22 @@ def shard_cases(arg):
                            for j in range(3)})
         else:
             gens = [(sum(seq) + seq[0]) % len(GENS)]
-        for gen in gens:
+        # far from the origin only with moderate scales: with the 1e-2 / 1e2
+        # generators the rounding of the coordinates (eps * 5e4) is no longer
+        # small against the extent of the smaller point set and the 1e-9
+        # tolerances would not be justified
+        for gen, far in [(g, False) for g in gens] + [
+                (far_gen(gens[0]), True)]:
             for noise in ("none", "one", "unrelated"):
                 for mode in MODES:
                     for n in (ns if mode != "origin" else [-1]):
-                        for storage in STORAGE:
+                        for storage in (STORAGE if not far else
+                                        ("se3", "quat+read")):
                             case = {"seq": list(seq), "gen": gen,
                                     "noise": noise, "mode": mode, "n": n,
                                     "storage": storage}
+                            if far:
+                                case["far"] = True
                             msgs, info = run_case(case)
                             acc.count("evaluations")
                             acc.count("transitions")
@@ -342,12 +362,14 @@ def shard_recorded(arg):
     acc = Acc()
     for seq in seqs:
         N = len(seq) + 1
-        for gen in (sum(seq) % len(GENS), (sum(seq) + 1) % len(GENS)):
+        g0 = sum(seq) % len(GENS)
+        for gen, far in ((g0, False), ((g0 + 1) % len(GENS), False),
+                         (far_gen(g0), True)):
             for noise in ("none", "one"):
                 for opt in range(len(OPTS)):
                     for n in sorted({-1, 3, N - 1, N}):
                         case = {"seq": list(seq), "gen": gen, "noise": noise,
-                                "opt": opt, "n": n,
+                                "opt": opt, "n": n, "far": far,
                                 "storage": STORAGE[(sum(seq) + opt) % 4]}
                         msgs = run_recorded(case)
                         acc.count("evaluations")
@@ -432,7 +454,8 @@ def run(ctx):
     acc.rule = (
         "estimate = every grid path of 3..%d poses over a 5-step alphabet "
         "with cube-rotation orientations; reference = its image under %s "
-        "generating similarities (scales 1e-2..1e2) with noise {none, one "
+        "generating similarities (scales 1e-2..1e2), near the origin and "
+        "displaced by (4620.37, 54280.91, 310.55), with noise {none, one "
         "pose moved, unrelated path}; x {rigid, similarity, scale-only, "
         "origin} x n in {-1, 3..N} x {matrices, positions+quaternions} x "
         "{nothing cached, all cached}; recorded-matrix part: ape()/rpe() for "
